@@ -9,9 +9,11 @@ families of the script), a case tuple is `Case.key()` with the two flags as 0 / 
 
 What the driver is given is the record `parse_args` returns.  `post_args` computes it from the case alone (the
 option spellings `Case.argv()` produces are known): the `-P` escaping, the back-slashes removed from offsets, the
-defaults.  A case argparse itself would refuse (a value outside an option's choices, an argument that starts with
-`-` and is not an option) never reaches the model and is left out of the stream, as the script left it out of the
-comparison; `impl` checks `post_args` against the real `parse_args` and says `ARGS-MISMATCH` if they differ.
+defaults, a value glued to a one-letter option (`-155788-W08-1` is `-1 55788-W08-1`: an offset).  A case argparse
+itself would refuse (a value outside an option's choices, an argument that starts with `-` and is not an option)
+never reaches the model and is left out of the stream, as the script left it out of the comparison; `impl` checks
+`post_args` against the real `parse_args` and says `ARGS-MISMATCH` if they differ.  Also left out: recurrences
+given by two points more than MAX_SPAN_YEARS apart (`long_span`; the script met them as time-outs).
 
 Canonical answers: `OUT <hex of stdout without trailing newlines>`; `EXIT <class>` with the class read off the
 message (the model does not produce the wording): offset / unit / dump / recurrence / duration, `point|arith` for
@@ -21,9 +23,9 @@ message (every model class accepted), `empty` for an exit without a message; `TR
 counted in the label and never compared.
 """
 import io
+import re
 import contextlib
 
-import engine
 from engine import Op
 from strf2ops import ModelSkips, tup
 
@@ -81,6 +83,8 @@ def post_args(case):
                 return None           # the next argument looks like an option: "expected one argument"
             name, value = tok, argv[i]
             i += 1
+        elif len(tok) > 2 and tok[1] != "-" and tok[:2] in VALUED and not eq:
+            name, value = tok[:2], tok[2:]      # `-1VALUE`: an expanded negative year that starts -1 / -2 ends up here
         elif not (tok.startswith("--") and eq and name in VALUED):
             if tok.startswith("-"):
                 return None           # not an option this parser knows ("-" alone would be stdin: left out too)
@@ -346,15 +350,32 @@ def more_cases(rng, n):
                    spell_seed=rng.getrandbits(30))
 
 
+_START_END = re.compile(r"^[Rr][0-9]*/([^/P][^/]*)/([^/P][^/]*)$")
+_YEAR = re.compile(r"[+-][0-9]{6}|[0-9]{4}")
+MAX_SPAN_YEARS = 2500
+
+
+def long_span(case):
+    """A recurrence given by two points many years apart: the implementation's cost is linear in the span (the
+    script met these as time-outs and skipped them); they are left out so that the op's running time is bounded."""
+    for item in case.items:
+        m = _START_END.match(item)
+        if m:
+            ys = [_YEAR.match(g) for g in m.groups()]
+            if all(ys) and abs(int(ys[0].group()) - int(ys[1].group())) > MAX_SPAN_YEARS:
+                return True
+    return False
+
+
 class CliEvalOp(ModelSkips, Op):
     prop = "C19"
     name = "clieval"
     CHUNK = 300
 
-    def declines(self, model_out):
+    def declines(self, a, model_out):
         return model_out.startswith("OUTSIDE")
 
-    def model_kind(self, model_out):
+    def model_kind(self, a, model_out):
         f = model_out.split(" ")
         return f[0] if f[0] in ("OUT", "bad-op") else "/".join(f[:2])
 
@@ -365,14 +386,14 @@ class CliEvalOp(ModelSkips, Op):
         c19 = _c19()
         shard = getattr(self, "shard", None)
         quick = tier == "quick"
-        n_more = (500 if quick else 5000) * boost
+        n_more = (700 if quick else 10000) * boost
         seen = set()
         k = 0
         stream = [c19.gen_cases(rng, "quick" if quick else "thorough", boost), more_cases(rng, n_more)]
         for cases in stream:
             for case in cases:
                 a = case_tuple(case)
-                if a in seen or post_args(case) is None:
+                if a in seen or post_args(case) is None or long_span(case):
                     continue
                 seen.add(a)
                 k += 1
@@ -414,7 +435,7 @@ class CliEvalOp(ModelSkips, Op):
     def canon_model(self, a, out):
         c19 = _c19()
         f = out.split(" ")
-        if self.declines(out):
+        if self.declines(a, out):
             self._state().skipped["/".join(f[:2])] += 1
             return self.answer_of_impl(a)
         if f[0] == "OUT":
